@@ -261,19 +261,24 @@ func genGogoProto(idx int, seed uint64) interface{} {
 // cases
 
 // cqrsGen describes how a case was generated, so that a request can be replayed:
-// <family>.<type index>.<value seed>.<marshaler variant>.<pass as pointer 0|1>
+// <family>.<type index>.<value seed>.<marshaler variant>.<0 = passed by value | 1 = by pointer | 1+h = by pointer, with history h>
 type cqrsGen struct {
 	family  string // j = JSON family, s = std protobuf, g = gogo protobuf, n = not serialisable by that marshaler
 	typ     int
 	seed    uint64
 	variant int
 	ptr     bool
+	// history of the Go object that holds the value (std protobuf family only): 0 = freshly built;
+	// 1 = proto.Size was called on it, 2 = it went through Marshal of the same marshaler once (first publish),
+	// 3 = proto.Marshal was called on it (e.g. a gRPC send) - and AFTERWARDS a nested message was edited in place.
+	// The value that is round-tripped is the edited one; where the Go object has been before is not part of the value.
+	history int
 }
 
 func (g cqrsGen) tok() string {
 	p := 0
 	if g.ptr {
-		p = 1
+		p = 1 + g.history
 	}
 	return fmt.Sprintf("%s.%d.%d.%d.%d", g.family, g.typ, g.seed, g.variant, p)
 }
@@ -295,7 +300,14 @@ func parseGen(s string) (cqrsGen, error) {
 	if g.variant, err = strconv.Atoi(f[3]); err != nil {
 		return g, err
 	}
-	g.ptr = f[4] == "1"
+	p, err := strconv.Atoi(f[4])
+	if err != nil || p < 0 || p > 4 {
+		return g, fmt.Errorf("bad generator descriptor %q", s)
+	}
+	g.ptr = p >= 1
+	if p > 1 {
+		g.history = p - 1
+	}
 	return g, nil
 }
 
@@ -404,6 +416,62 @@ func genUnknownFields(r *wh.Rng) []byte {
 	return b
 }
 
+// ageAndEdit gives the Go object of a *structpb.Struct value a past: it is sized / published / encoded once, and afterwards
+// nested messages of it are edited in place so that their encoded length changes (grow and shrink). What is then
+// round-tripped is the edited value - a value like any other; an encoder that trusts sizes cached in the object
+// (proto.MarshalOptions{UseCachedSize: true}) fails on it with "size mismatch".
+func ageAndEdit(mar cqrs.CommandEventMarshaler, arg interface{}, g cqrsGen) {
+	st, ok := arg.(*structpb.Struct)
+	if !ok {
+		return
+	}
+	r := wh.NewRng(g.seed ^ 0xa9ed)
+	if st.Fields == nil {
+		st.Fields = map[string]*structpb.Value{}
+	}
+	nested := &structpb.Struct{Fields: map[string]*structpb.Value{"a": structpb.NewNumberValue(1), "s": structpb.NewStringValue(genStr(r))}}
+	list := &structpb.ListValue{Values: []*structpb.Value{structpb.NewStringValue("x"), structpb.NewStructValue(&structpb.Struct{Fields: map[string]*structpb.Value{"deep": structpb.NewBoolValue(true)}})}}
+	st.Fields["nested"] = structpb.NewStructValue(nested)
+	st.Fields["list"] = structpb.NewListValue(list)
+	st.Fields["text"] = structpb.NewStringValue("short")
+	switch g.history {
+	case 1:
+		_ = stdproto.Size(st)
+	case 2:
+		func() {
+			defer func() { _ = recover() }()
+			_, _ = mar.Marshal(st)
+		}()
+	default:
+		_, _ = stdproto.Marshal(st)
+	}
+	// in-place edits of nested messages (1..3 of them)
+	n := 1 + r.Intn(3)
+	for i := 0; i < n; i++ {
+		switch r.Intn(6) {
+		case 0:
+			nested.Fields["added"+wh.Itoa(i)] = structpb.NewStringValue("added after the first publish " + genStr(r))
+		case 1:
+			list.Values = append(list.Values, structpb.NewNumberValue(float64(r.Intn(1000))), structpb.NewStringValue(genStr(r)))
+		case 2:
+			st.Fields["text"].Kind = &structpb.Value_StringValue{StringValue: "a considerably longer text than before " + genStr(r)}
+		case 3:
+			delete(nested.Fields, "s") // shrinks
+		case 4:
+			if len(list.Values) > 1 {
+				list.Values = list.Values[:1]
+			}
+		default:
+			deep := list.Values[len(list.Values)-1]
+			if sv := deep.GetStructValue(); sv != nil {
+				sv.Fields["deeper"] = structpb.NewStringValue(genStr(r) + "!")
+			} else {
+				nested.Fields["a"].Kind = &structpb.Value_StringValue{StringValue: "was a number"}
+			}
+		}
+	}
+}
+
 // canonValue is the canonical text of a value for the round-trip comparison. For messages of the new protobuf API
 // the exported fields cannot show unknown fields, so the unknown bytes of the message and its deterministic
 // re-marshalling (which includes unknown fields at any depth) are appended.
@@ -411,7 +479,8 @@ func canonValue(opt canonOpt, v interface{}) string {
 	s := opt.canon(deref(v))
 	if m, ok := v.(stdproto.Message); ok {
 		s += "|unknown:" + wh.Hex(m.ProtoReflect().GetUnknown())
-		if b, err := (stdproto.MarshalOptions{Deterministic: true}).Marshal(m); err == nil {
+		// a clone is encoded: encoding the object itself would refresh the size caches it carries (see ageAndEdit)
+		if b, err := (stdproto.MarshalOptions{Deterministic: true}).Marshal(stdproto.Clone(m)); err == nil {
 			s += "|wire:" + wh.Hex(b)
 		} else {
 			s += "|wire:error"
@@ -442,6 +511,9 @@ func uuidTok(msg *message.Message, fixed string) string {
 func runCqrs(kind string, g cqrsGen) (req, obs string, serialisable bool) {
 	mar, fixed := marshalerFor(kind, g.variant)
 	arg, target, opt := valueFor(g)
+	if g.history > 0 {
+		ageAndEdit(mar, arg, g)
+	}
 	name := mar.Name(arg)
 	value := canonValue(opt, arg)
 	serialisable = true
@@ -492,15 +564,15 @@ func cqrsCases(out *wh.Out, r *wh.Rng, n int) {
 		}
 	}
 	for i := 0; i < n; i++ {
-		emit("json", cqrsGen{"j", i, r.Next() >> 1, r.Intn(4), r.Bool()})
+		emit("json", cqrsGen{"j", i, r.Next() >> 1, r.Intn(4), r.Bool(), 0})
 	}
 	for i := 0; i < n/2; i++ {
-		emit("proto", cqrsGen{"s", i, r.Next() >> 1, r.Intn(4), true})
-		emit("gogo", cqrsGen{"g", i, r.Next() >> 1, r.Intn(8), true})
+		emit("proto", cqrsGen{"s", i, r.Next() >> 1, r.Intn(4), true, 0})
+		emit("gogo", cqrsGen{"g", i, r.Next() >> 1, r.Intn(8), true, 0})
 	}
 	for i := 0; i < n/6; i++ {
 		// the gogo marshaler given messages of the new API (accepted directly or through the std fallback)
-		g := cqrsGen{"s", i, r.Next() >> 1, r.Intn(4), true}
+		g := cqrsGen{"s", i, r.Next() >> 1, r.Intn(4), true, 0}
 		if withUnknown(g) && !gogoStdUnknown {
 			g.seed++ // same message without unknown fields (see gogoStdUnknown)
 			if withUnknown(g) {
@@ -509,9 +581,21 @@ func cqrsCases(out *wh.Out, r *wh.Rng, n int) {
 		}
 		emit("gogo", g)
 	}
+	for i := 0; i < n/8; i++ {
+		// a protobuf value whose Go object has a past (sized / published / encoded before) and whose nested messages were
+		// edited in place afterwards - still just a value: Marshal must succeed and the round trip must be the identity
+		for _, kind := range []string{"proto", "gogo"} {
+			g := cqrsGen{"s", 8, r.Next() >> 1, r.Intn(4), true, 1 + r.Intn(3)}
+			for kind == "gogo" && withUnknown(g) && !gogoStdUnknown {
+				g.seed++
+			}
+			emit(kind, g)
+			out.Count("cqrs.proto_value_edited_in_place_after_size_or_publish." + kind)
+		}
+	}
 	for i := 0; i < 12; i++ {
 		// values that are not protobuf messages: Marshal must fail, nothing to round-trip
-		emit("proto", cqrsGen{"n", 0, r.Next() >> 1, r.Intn(4), i%2 == 0})
-		emit("gogo", cqrsGen{"n", 0, r.Next() >> 1, r.Intn(8), i%2 == 0})
+		emit("proto", cqrsGen{"n", 0, r.Next() >> 1, r.Intn(4), i%2 == 0, 0})
+		emit("gogo", cqrsGen{"n", 0, r.Next() >> 1, r.Intn(8), i%2 == 0, 0})
 	}
 }
